@@ -14,6 +14,7 @@ Not carried by `rnext` (and not claimed by the property): the instruction meter,
 the in-place patch of a late-bound `Resolve` opcode are not rewound.
 -/
 import XehModel.Proofs.VMRev2
+import XehModel.Proofs.VMSim2
 
 namespace Xeh.C02
 open Xeh Xeh.Mach
@@ -177,6 +178,64 @@ theorem rewind (n k : Nat) (hk : k ≤ n) (m mn : Mach) (ℓ : List RStep) (w : 
           subst c1
           rfl
     · cases hn
+
+/-! ### replay -/
+
+/-- **Replay, general form.** Two machines that agree on everything except the reverse log, the
+    instruction meter, captured stdout and the about-to-stop flag execute the same steps: the same
+    number of steps succeed and the machines agree again (in particular on the whole core) after
+    every one of them. (No instruction limit: with a limit the meter is an input of `step`.) -/
+theorem replay (n : Nat) (a b a' : Mach) (w : WF a) (h : normAll a = normAll b) (hl : a.insnLimit = none)
+    (hn : stepN np n a = some a') : ∃ b', stepN np n b = some b' ∧ normAll a' = normAll b' := by
+  induction n generalizing a b with
+  | zero => simp [stepN] at hn; subst hn; exact ⟨b, rfl, h⟩
+  | succ n ih =>
+    simp only [stepN] at hn ⊢
+    have hs := NormAll.step_sim np a b h hl
+    have hf := step_frame np a w
+    revert hs hf
+    generalize step np a = ra at hn ⊢
+    generalize step np b = rb
+    obtain ⟨oa, ma⟩ := ra
+    obtain ⟨ob, mb⟩ := rb
+    rintro ⟨h1, h2⟩ hf
+    simp only at h1 h2
+    subst h1
+    cases oa with
+    | ok u => exact ih ma mb hf.2.2.2.2.2 h2 (by rw [hf.1.1, hl]) hn
+    | err e => simp at hn
+    | panic p => simp at hn
+
+/-- `rnext` changes nothing but the core and the log -/
+theorem rnext_static (m : Mach) : normAll ((rnext m).2.setCore m.core) = normAll m := by
+  unfold rnext
+  split
+  · rfl
+  · rfl
+
+/-- **Rewind, then replay.** Rewind k of n steps; from the rewound machine, stepping forward again
+    goes through machines with exactly the cores of the original execution, for as many steps as the
+    original took (and beyond). Hypotheses: no instruction limit, and no late-bound `Resolve` was
+    patched between the two points (`hcode`: the code is the same) — both are exercised without
+    these restrictions by the correspondence check. -/
+theorem rewind_replay (j : Nat) (mid back x : Mach) (w : WF mid)
+    (hcore : back.core = mid.core) (hstatic : normAll (back.setCore mid.core) = normAll mid)
+    (hl : mid.insnLimit = none) (hj : stepN np j mid = some x) :
+    ∃ y, stepN np j back = some y ∧ y.core = x.core := by
+  have hb : normAll mid = normAll back := by
+    rw [← hstatic]
+    have : back.setCore mid.core = back := by rw [← hcore]; rfl
+    rw [this]
+  obtain ⟨y, hy, hn⟩ := replay np j mid back x w hb hl hj
+  refine ⟨y, hy, ?_⟩
+  have key : ∀ p q : Mach, normAll p = normAll q → p.core = q.core := by
+    intro p q h
+    cases p; cases q
+    simp only [normAll, Mach.mk.injEq, true_and, and_true] at h
+    obtain ⟨h1, h2, h3, h4, h5, h6, h7, h8, h9, h10, h11⟩ := h
+    subst_vars
+    rfl
+  exact (key x y hn).symm
 
 /-! ### non-vacuity: a concrete recording machine in the middle of a counted loop with a local -/
 
